@@ -177,21 +177,25 @@ func c16PolicyCheck(ctx *vfCtx, c c16PolicyCase) {
 // c16DenyOnlyAfterBad: ip lies in a denied range, and every denied range containing it comes after
 // an unparsable entry of the deny list (the input class of the "list walk stops at a typo" defect).
 func c16DenyOnlyAfterBad(deny []string, ip netip.Addr) bool {
-	seenBad, matchBeforeBad, matchAfterBad := false, false, false
-	for _, s := range deny {
-		p, ok := c16ParsePrefix(s)
-		switch {
-		case !ok:
-			seenBad = true
-		case p.Contains(ip.WithZone("").Unmap()) || p.Contains(ip.WithZone("")):
-			if seenBad {
-				matchAfterBad = true
-			} else {
-				matchBeforeBad = true
+	one := func(a netip.Addr) bool {
+		seenBad, matchBeforeBad, matchAfterBad := false, false, false
+		for _, s := range deny {
+			p, ok := c16ParsePrefix(s)
+			switch {
+			case !ok:
+				seenBad = true
+			case p.Contains(a):
+				if seenBad {
+					matchAfterBad = true
+				} else {
+					matchBeforeBad = true
+				}
 			}
 		}
+		return matchAfterBad && !matchBeforeBad
 	}
-	return matchAfterBad && !matchBeforeBad
+	// an IPv4-mapped address has two readings; the class holds if it holds under either
+	return one(ip.WithZone("").Unmap()) || one(ip.WithZone(""))
 }
 
 func c16LastAddr(p netip.Prefix) netip.Addr {
@@ -452,5 +456,5 @@ func c16PolicyGen(t *rapid.T) c16PolicyCase {
 
 func init() {
 	vfEnum("C16/policy-table", c16PolicyRule, 1, 2, 4, c16PolicyEnum, c16PolicyCheck)
-	vfRapid("C16/policy", c16PolicyRule, 3000, 400000, 8, c16PolicyGen, c16PolicyCheck)
+	vfRapid("C16/policy", c16PolicyRule, 20000, 800000, 8, c16PolicyGen, c16PolicyCheck)
 }
